@@ -2,6 +2,7 @@ package c15
 
 import (
 	"fmt"
+	"math"
 	"strings"
 	"testing"
 	"testing/synctest"
@@ -57,13 +58,45 @@ func (p seqPlan) String() string {
 // model is the reference: key -> (value, exp = set instant + min(ttl, MaxTTL) s).
 // It is used both by the generators (to aim clock advances at expiries) and by
 // the runner (as the oracle).
+// maxDurSec is the largest number of seconds a time.Duration can hold.
+const maxDurSec = int64(math.MaxInt64 / int64(time.Second)) // 9223372036
+
+// forever: an expiry beyond anything the virtual clock can reach.
+const forever = time.Duration(math.MaxInt64)
+
+// satExp is now + eff seconds in saturating arithmetic.
+func satExp(now time.Duration, eff int64) time.Duration {
+	if eff > maxDurSec {
+		return forever
+	}
+	d := time.Duration(eff) * sec
+	if d > forever-now {
+		return forever
+	}
+	return now + d
+}
+
+// bigTTLs returns the TTL values of interest around a MaxTTL (0 = none).
+func bigTTLs(maxTTL int64) []int64 {
+	out := []int64{1, 2}
+	if maxTTL > 0 {
+		for _, v := range []int64{maxTTL - 1, maxTTL, maxTTL + 1, 2 * maxTTL} {
+			if v > 0 && (v >= maxTTL-1) { // 2*maxTTL may have wrapped
+				out = append(out, v)
+			}
+		}
+	}
+	return append(out, 1<<31, 1<<32, maxDurSec, maxDurSec+1, 1<<40, math.MaxInt64/2, math.MaxInt64-1, math.MaxInt64)
+}
+
 type ment struct {
-	state string // set | deleted | reset
-	val   string
-	setAt time.Duration
-	exp   time.Duration
-	ttl   int64
-	eff   int64
+	beyond bool   // effective TTL not representable as a time.Duration: observed, not judged
+	state  string // set | deleted | reset
+	val    string
+	setAt  time.Duration
+	exp    time.Duration
+	ttl    int64
+	eff    int64
 }
 
 type model struct {
@@ -90,7 +123,7 @@ func (m *model) live(key string) bool {
 func (m *model) set(key, val string, ttl int64) string {
 	rel := ""
 	eff := m.eff(ttl)
-	exp := m.now + time.Duration(eff)*sec
+	exp := satExp(m.now, eff)
 	if m.live(key) {
 		switch old := m.m[key].exp; {
 		case exp < old:
@@ -101,7 +134,7 @@ func (m *model) set(key, val string, ttl int64) string {
 			rel = "same"
 		}
 	}
-	m.m[key] = &ment{state: "set", val: val, setAt: m.now, exp: exp, ttl: ttl, eff: eff}
+	m.m[key] = &ment{state: "set", val: val, setAt: m.now, exp: exp, ttl: ttl, eff: eff, beyond: eff > maxDurSec}
 	return rel
 }
 
@@ -146,6 +179,9 @@ func (b *builder) advTo(k string, off time.Duration) bool {
 	e := b.md.m[k]
 	if e == nil || e.state != "set" {
 		return false
+	}
+	if e.exp == forever || e.eff > 1<<32 {
+		return false // not reachable on the virtual clock
 	}
 	t := e.exp + off
 	if t <= b.md.now {
@@ -258,6 +294,68 @@ func boundaryPlans() []seqPlan {
 			}
 		}
 	}
+	out = append(out, bigTTLPlans()...)
+	return out
+}
+
+// bigTTLPlans: every TTL of interest x MaxTTL none / small / large / beyond the
+// Duration range, probed right after Set, across a manual Cleanup, across ticks
+// of the periodic cleaner, and - where the virtual clock can get there (up to
+// 1<<32 s = 136 years) - 1ns before, at and after the capped expiry.
+func bigTTLPlans() []seqPlan {
+	var out []seqPlan
+	n := 0
+	for _, maxTTL := range []int64{0, 3, 1 << 31, 1 << 32, maxDurSec, maxDurSec + 1, 1 << 40, math.MaxInt64} {
+		for _, ttl := range bigTTLs(maxTTL) {
+			for _, phase := range []time.Duration{0, 123456789} {
+				for _, periodic := range []bool{false, true} {
+					n++
+					k := []string{"a", ""}[n%2]
+					b := newBuilder(maxTTL)
+					eff := b.md.eff(ttl)
+					interval := farInterval
+					if periodic {
+						interval = sec
+						if eff > 16 {
+							interval = (1 << 30) * sec // 34 years: a tick lands on the capped expiry of 1<<31 and 1<<32
+						}
+					}
+					b.adv(phase)
+					b.set("live", 1<<31)
+					b.set(k, ttl)
+					b.get(k) // right after Set
+					b.cleanup()
+					b.get(k)
+					b.adv(sec)
+					b.get(k)
+					b.adv(2 * sec)
+					b.get(k)
+					if eff <= 1<<32 {
+						if b.advTo(k, -1) {
+							b.get(k)
+							b.cleanup()
+							b.get(k)
+						}
+						b.advTo(k, 0)
+						b.get(k)
+						b.cleanup()
+						b.advTo(k, 1)
+						b.get(k)
+						b.get("live")
+					} else {
+						// as far as the clock may safely go: 68 years
+						b.adv((1 << 31) * sec)
+						b.get(k)
+						b.cleanup()
+						b.get(k)
+					}
+					name := fmt.Sprintf("bigttl/ttl=%d/periodic=%v/phase%d", ttl, periodic, phase)
+					out = append(out, seqPlan{mode: "boundary", name: name, maxTTL: maxTTL, interval: interval,
+						keys: []string{k, "live"}, vtype: []string{"string", "int", "ptr"}[n%3], ops: b.ops})
+				}
+			}
+		}
+	}
 	return out
 }
 
@@ -282,7 +380,15 @@ func genSeq(rng *mon.RNG, mode string) seqPlan {
 	for len(b.ops) < n {
 		switch r := rng.Intn(100); {
 		case r < 30:
-			b.set(key(), int64(rng.Range(1, 8)))
+			ttl := int64(rng.Range(1, 8))
+			if rng.Chance(1, 6) {
+				// large and huge TTLs; stay where the effective TTL is representable (see bigttl scripts for the rest)
+				c := bigTTLs(pl.maxTTL)
+				if t := c[rng.Intn(len(c))]; b.md.eff(t) <= maxDurSec {
+					ttl = t
+				}
+			}
+			b.set(key(), ttl)
 		case r < 46:
 			b.get(key())
 		case r < 52:
@@ -296,7 +402,7 @@ func genSeq(rng *mon.RNG, mode string) seqPlan {
 				// aim at the expiry of an entry
 				var cand []string
 				for _, k := range pl.keys {
-					if e := b.md.m[k]; e != nil && e.state == "set" && e.exp+time.Second > b.md.now {
+					if e := b.md.m[k]; e != nil && e.state == "set" && e.exp+time.Second > b.md.now && e.exp-b.md.now < time.Hour {
 						cand = append(cand, k)
 					}
 				}
@@ -409,6 +515,20 @@ func runSeqV[V comparable](t *testing.T, idx int, pl seqPlan, enc func(n int) V)
 			raw, ok := c.Get(key)
 			got := labelOf(raw, ok)
 			e := md.m[key]
+			if e != nil && e.state == "set" && e.beyond {
+				// effective TTL beyond the Duration range: kit's own ttl*time.Second wraps; observed only
+				res := "miss"
+				if ok {
+					res = "hit"
+				}
+				age := "right_after_set"
+				if md.now > e.setAt {
+					age = "later"
+				}
+				rec.Count(fmt.Sprintf("seq.ttl_beyond_duration.eff=%d.%s_%s", e.eff, res, age), 1)
+				logf("%s get(%q) -> %q,%v (effective ttl %d s is beyond time.Duration: not judged)", site, key, got, ok, e.eff)
+				return got, ok
+			}
 			want := md.live(key)
 			label := "get"
 			if site != "get" {
@@ -456,6 +576,24 @@ func runSeqV[V comparable](t *testing.T, idx int, pl seqPlan, enc func(n int) V)
 				if got == "v1" {
 					rec.Count("seq.zero_value.hits_"+pl.vtype, 1)
 				}
+				if e.ttl > maxDurSec {
+					// a TTL whose nanoseconds do not fit an int64, capped by MaxTTL
+					sc := sinceSet[key]
+					switch {
+					case md.now == e.setAt:
+						rec.Count("seq.huge_ttl_capped.hits_right_after_set", 1)
+					case e.exp-md.now == 1:
+						rec.Count("seq.huge_ttl_capped.hit_1ns_before_capped_expiry", 1)
+					}
+					if sc != nil && sc.withExpired+sc.nothingExpired > 0 {
+						rec.Count("seq.huge_ttl_capped.hits_after_manual_cleanup", 1)
+					}
+					if sc != nil && sc.ticks > 0 {
+						rec.Count("seq.huge_ttl_capped.hits_after_periodic_cleanup", 1)
+					}
+				} else if e.ttl >= 1<<31 && e.eff == e.ttl {
+					rec.Count("seq.large_ttl_uncapped.hits", 1)
+				}
 				if sc := sinceSet[key]; key == "" && sc != nil {
 					if sc.withExpired > 0 {
 						rec.Count("seq.zero_key.hits_after_cleanup_that_met_expired_entries", 1)
@@ -482,6 +620,9 @@ func runSeqV[V comparable](t *testing.T, idx int, pl seqPlan, enc func(n int) V)
 					rec.Count("seq.get.miss_after_reset", 1)
 				default:
 					missesOfSet++
+					if e.ttl > maxDurSec && md.now == e.exp {
+						rec.Count("seq.huge_ttl_capped.miss_exactly_at_capped_expiry", 1)
+					}
 					switch d := md.now - e.exp; {
 					case d == 0:
 						rec.Count("seq.boundary.miss_exactly_at_expiry", 1)
@@ -570,6 +711,9 @@ func runSeqV[V comparable](t *testing.T, idx int, pl seqPlan, enc func(n int) V)
 					rawv, ok := c.Get(k)
 					v := labelOf(rawv, ok)
 					bf := before[k]
+					if e := md.m[k]; e != nil && e.state == "set" && e.beyond {
+						continue
+					}
 					logf("post-cleanup get(%q) -> %q,%v", k, v, ok)
 					rec.Count("seq.cleanup.probed_pairs", 1)
 					if e := md.m[k]; e != nil && e.state == "set" {
